@@ -15,7 +15,7 @@ pub fn def() -> PropDef {
         streams,
         run,
         floors,
-        rule: "reveal on hostile hidden AVPs: random (type, value, secret, rv) with |value| in {0..80, 16k, 1008, 1024, 4096}; and crafted ciphertexts built with the reference cipher so that the *decrypted* length field takes every value in {0..7, fit-1, fit, fit+1, 1023, 1024, 0xffff} for every attribute 0..41 - both sides of every guard inside reveal. The hidden value sits in an exact-capacity heap block (sanitizer builds watch the private reader). Outcome must be Ok(AVP of the announced type) or Err; Err is required for empty, misaligned, and non-fitting lengths. Distinct = distinct (type, value, secret, rv); non-trivial = value is a positive multiple of 16 (gets past the first two guards).",
+        rule: "reveal on hostile hidden AVPs: random (type, value, secret, rv) with |value| in {0..80, 16k, 1008, 1024, 4096}; and crafted ciphertexts built with the reference cipher so that the *decrypted* length field takes every value in {0..7, fit-1, fit, fit+1, 1023, 1024, 0xffff} for every attribute 0..41 - both sides of every guard inside reveal. The hidden value sits in an exact-capacity heap block (sanitizer builds watch the private reader). Outcome must be Ok(AVP of the announced type) or Err; Err is required for empty, misaligned, and non-fitting lengths. Distinct = distinct (type, value, secret, rv); non-trivial = value is a positive multiple of 16 (gets past the first two guards). Also: hidden values of 2^12..2^17 blocks with crafted length fields; secret lengths around every power of two up to 2^12 and 1000..1030.",
     }
 }
 
